@@ -318,7 +318,10 @@ fn run_grid<T: BE>(c: &GridCase, lx: &mut Local) {
         .map(|k| {
             let (i, j) = (k / c.cols, k % c.cols);
             let x = ((i * (j + 2) * 7 + c.fill * 3 + j) % (11 + 6 * j)) as f64;
-            if T::IS_FLOAT {
+            if T::IS_FLOAT && c.fill == 3 {
+                // coarse floats: only a few distinct representable values, so equispaced edges collide and are de-duplicated
+                T::from_f64(1e16 + 2.0 * ((x as usize) % 3) as f64 + j as f64 * 1e17).unwrap()
+            } else if T::IS_FLOAT {
                 T::from_f64(x * 0.1 + j as f64 * 1000.3).unwrap()
             } else {
                 T::from_f64(x + (j * 100) as f64).unwrap()
@@ -333,6 +336,18 @@ fn run_grid<T: BE>(c: &GridCase, lx: &mut Local) {
                     Ok(gb) => {
                         let grid = gb.build();
                         let shape = grid.shape();
+                        // the accessors of the grid agree with its projections, and every in-shape index is answerable
+                        let plens: Vec<usize> = grid.projections().iter().map(|b| b.len()).collect();
+                        if plens != shape {
+                            return Err(format!("Grid::shape() = {:?} but its projections have {:?} bins", shape, plens));
+                        }
+                        if shape.iter().all(|&s| s >= 1) {
+                            let last: Vec<usize> = shape.iter().map(|&s| s - 1).collect();
+                            let cell = grid.index(&last);
+                            if cell.len() != shape.len() {
+                                return Err(format!("Grid::index({:?}) returned {} ranges", last, cell.len()));
+                            }
+                        }
                         let h = m.histogram(grid);
                         Ok((h.counts().sum(), shape))
                     }
@@ -351,6 +366,10 @@ fn run_grid<T: BE>(c: &GridCase, lx: &mut Local) {
             Err(msg) => {
                 lx.fail("C12/panic", || format!("[{}] GridBuilder<{:?}> / histogram panicked: {}; {:?}", T::NAME, c.strat, msg, c));
                 0
+            }
+            Ok(Err(e)) if e.starts_with("Grid::") => {
+                lx.fail("C12/grid-accessors-disagree", || format!("[{}] GridBuilder<{:?}>: {}; {:?}", T::NAME, c.strat, e, c));
+                2
             }
             Ok(Err(_)) => {
                 lx.count("grid_strategy_errors", 1);
